@@ -45,11 +45,18 @@ def scenario_for(alpha_kind, shape, scale_axis=None, bounds_po2=False):
       kw["scale_axis"] = scale_axis
     lo = hi = None
     if bounds_po2:
-      lo, hi = z3.Int("min_e"), z3.Int("max_e")
-      s.vars["min_e"], s.vars["max_e"] = lo, hi
-      ip.assume(lo <= hi)
-      kw["min_po2_exponent"], kw["max_po2_exponent"] = SNum(lo, "int"), SNum(hi, "int")
-      s.hints.extend([lo, hi])
+      if bounds_po2 in (True, "both", "min"):
+        lo = z3.Int("min_e")
+        s.vars["min_e"] = lo
+        kw["min_po2_exponent"] = SNum(lo, "int")
+        s.hints.append(lo)
+      if bounds_po2 in (True, "both", "max"):
+        hi = z3.Int("max_e")
+        s.vars["max_e"] = hi
+        kw["max_po2_exponent"] = SNum(hi, "int")
+        s.hints.append(hi)
+      if lo is not None and hi is not None:
+        ip.assume(lo <= hi)
     pts = None
     if alpha_kind == "frozen":
       c = z3.Int("pts_exp")
@@ -148,8 +155,12 @@ def scenario_for(alpha_kind, shape, scale_axis=None, bounds_po2=False):
           s.vars["scale_exp_raw"] = raw
           s.hints.extend([raw, raw + n, -raw])
         e_spec = ee
-        if bounds_po2:
-          e_spec = z3.If(ee < z3.ToReal(lo), z3.ToReal(lo), z3.If(ee > z3.ToReal(hi), z3.ToReal(hi), ee))
+        if lo is not None:
+          e_spec = z3.If(e_spec < z3.ToReal(lo), z3.ToReal(lo), e_spec)
+        if hi is not None:
+          e_spec = z3.If(e_spec > z3.ToReal(hi), z3.ToReal(hi), e_spec)
+        if False:
+          pass
         ei = z3.Int("scale_exp")
         s.vars["scale_exp"] = ei
         ip.assume(z3.ToReal(ei) == e_spec)     # names the (integer) exponent; integrality is claimed below
@@ -157,7 +168,7 @@ def scenario_for(alpha_kind, shape, scale_axis=None, bounds_po2=False):
         s.claim("scale_exp_integer", z3.simplify(z3.IsInt(ee)))
         s.claim("scale_po2", sce == P(ei) * P(n))
         if bounds_po2:
-          s.claim("scale_po2_bounds", z3.And(lo <= ei, ei <= hi))
+          s.claim("scale_po2_bounds", z3.And(lo <= ei if lo is not None else True, ei <= hi if hi is not None else True))
     if alpha_kind == "frozen":
       s.claim("frozen", sce == pts)
     return s
@@ -185,8 +196,9 @@ def cases(tier):
                       replay_kind="c05", assumptions=ASSUME, timeout_ms=20000, lo=-40, hi=40))
   out.append(Case(PROP, T, "alpha-auto_scale_axis0_rank2", scenario_for("auto", (3, 4), scale_axis=0), bounds=bounds,
                   replay_kind="c05", assumptions=ASSUME, timeout_ms=20000))
-  out.append(Case(PROP, T, "alpha-auto_po2_bounded_rank2", scenario_for("auto_po2", (3, 4), bounds_po2=True), bounds=bounds,
-                  replay_kind="c05", assumptions=ASSUME, timeout_ms=20000))
+  for bk in ("both", "min", "max"):
+    out.append(Case(PROP, T, "alpha-auto_po2_bounded-%s_rank2" % bk, scenario_for("auto_po2", (3, 4), bounds_po2=bk), bounds=bounds,
+                    replay_kind="c05", assumptions=ASSUME, timeout_ms=20000))
   out.append(Case(PROP, T, "frozen_post_training_scale_rank2", scenario_for("frozen", (3, 4)), bounds=bounds,
                   replay_kind="c05", assumptions=ASSUME, timeout_ms=20000))
   return out
